@@ -87,6 +87,9 @@ def main() -> None:
     from dsim.core.rng import stream
 
     check = load(a.prop)
+    from dsim.env import fsseam
+
+    fsseam.install()
     hashseed = os.environ.get("PYTHONHASHSEED", "random")
     check.warmup()
     if a.mode == "exec":
